@@ -13,7 +13,7 @@ bond-length settings and node relabellings.
 import copy
 import math
 
-from .core import H, rng_for, sha, jdump, HarnessError, raised_in_harness
+from .core import H, rng_for, sha, jdump, HarnessError, raised_in_harness, apply_env, env_debug_logging
 from . import gen_mol
 
 EZ_STRINGS = [
@@ -135,7 +135,14 @@ def generate(run_seed, prop, tier="quick"):
                         "np_seed": rng.randrange(2 ** 32) if rng.random() < 0.65 else None,
                         "relabel": rng.choice(["none", "none", "shuffle", "strings", "offset"]),
                         "relabel_seed": rng.randrange(2 ** 30),
-                        "align": rng.choice([None, None, [1.0, 0.0], [0.0, 1.0], [1.0, 1.0]])})
+                        "align": rng.choice([None, None, [1.0, 0.0], [0.0, 1.0], [1.0, 1.0]]),
+                        # the kind of graph object handed in: a plain graph, a frozen one, a read-only view
+                        "form": rng.choice(["plain", "plain", "plain", "plain", "frozen", "view"])})
+        elif roll < 0.76:
+            # an interrupted call of a layout function earlier in the process: vespr_layout itself cut short, or the
+            # refined layout (same module) cut short / failing on a graph without bond orders
+            ops.append({"op": "aborted_call", "g": rng.randrange(len(sources)), "which": rng.choice(["layout", "refined", "refined_orderless"]),
+                        "abort_at": rng.choice([1, 2, 3, 5, 8, 13, 21, 34, 55, 89, 144, 233, 400, 900]), "np_seed": rng.randrange(2 ** 32)})
         elif roll < 0.80:
             ops.append({"op": "foreign_rng", "seed": rng.randrange(2 ** 32), "draws": rng.randint(0, 7)})
         elif roll < 0.88:
@@ -159,7 +166,12 @@ def generate(run_seed, prop, tier="quick"):
             if not any(o.get("g") == g and o["op"] == "layout" for o in ops):
                 ops.append({"op": "layout", "g": g, "bond": rng.choice([1, 1.5, 0.35]), "np_seed": rng.randrange(2 ** 32),
                             "relabel": "none", "relabel_seed": 0, "align": None})
-    return {"family": "layout", "prop": prop, "run_seed": run_seed, "sources": sources, "ops": ops}
+    if any(o["op"] == "aborted_call" for o in ops) and ops[-1]["op"] != "layout":
+        ops.append({"op": "layout", "g": rng.randrange(len(sources)), "bond": rng.choice([1, 1.5, 0.35]), "np_seed": rng.randrange(2 ** 32),
+                    "relabel": "none", "relabel_seed": 0, "align": None})
+    # the logging configuration of the process is part of the environment
+    return {"family": "layout", "prop": prop, "run_seed": run_seed, "sources": sources, "ops": ops,
+            "debug_logging": env_debug_logging(run_seed)}
 
 
 def _relabel(graph, how, seed):
@@ -232,6 +244,8 @@ def run_history(scenario):
     violations = []
     stats = {}
     events = []
+    apply_env(sc, stats)
+
     def build(src):
         if src["type"] == "shape":
             g = nx.Graph()
@@ -311,12 +325,43 @@ def run_history(scenario):
                 kwargs = {"default_bond": bond}
                 if op.get("align"):
                     kwargs["align_with"] = np.array(op["align"])
+                form = op.get("form", "plain")
+                if form == "frozen":
+                    work = nx.freeze(work.copy())
+                elif form == "view":
+                    holder = work.copy()
+                    work = holder.subgraph(list(holder.nodes))
+                if form != "plain":
+                    stats["graph-form:" + form] = stats.get("graph-form:" + form, 0) + 1
                 edges_before = list(work.edges)
                 pos = vespr_layout(work, **kwargs)
-                _check(work, pos, requested(op["bond"]), seq, violations, "layout(relabel=%s)" % op["relabel"], edges=edges_before)
+                _check(work, pos, requested(op["bond"]), seq, violations, "layout(relabel=%s, %s graph)" % (op["relabel"], form), edges=edges_before)
                 event["out"] = "ok"
                 event["dig"] = sha(jdump(sorted([repr(k), [round(float(x), 6) for x in np.asarray(v, dtype=float)]] for k, v in pos.items())))
                 stats["layouts"] = stats.get("layouts", 0) + 1
+            elif op["op"] == "aborted_call":
+                from .seams import AbortInjector, SimInterrupt
+                from cgsmiles.graph_layout import vespr_refined_layout
+                np.random.seed(op["np_seed"])
+                victim = graph.copy()
+                if op["which"] == "refined_orderless":
+                    for u, v in victim.edges:
+                        victim.edges[u, v].pop("order", None)
+                try:
+                    with AbortInjector(op["abort_at"] if op["which"] != "refined_orderless" else 0) as inj:
+                        if op["which"] == "layout":
+                            vespr_layout(victim, default_bond=1.0)
+                        else:
+                            vespr_refined_layout(victim)
+                    event["out"] = "completed"
+                except SimInterrupt:
+                    event["out"] = "interrupted"
+                    stats["fault:layout-call-interrupted:fired"] = stats.get("fault:layout-call-interrupted:fired", 0) + 1
+                except Exception as exc:  # noqa  (a foreign call: its own outcome is not judged)
+                    if raised_in_harness(exc):
+                        raise
+                    event["out"] = "failed:%s" % type(exc).__name__
+                    stats["fault:foreign-layout-call-failed:fired"] = stats.get("fault:foreign-layout-call-failed:fired", 0) + 1
             elif op["op"] == "mutate_graph":
                 import random
                 mrng = random.Random(op["seed"])
@@ -355,7 +400,7 @@ def run_history(scenario):
             if raised_in_harness(exc):
                 raise HarnessError("harness bug in op %s: %s: %s" % (op["op"], type(exc).__name__, exc))
             event["out"] = "exc:%s: %s" % (type(exc).__name__, str(exc)[:100])
-            if op["op"] != "foreign_rng":
+            if op["op"] not in ("foreign_rng", "aborted_call"):
                 violations.append({"oracle": "C19.positions", "event": seq,
                                    "detail": "vespr_layout raised %s: %s on a connected graph with %d nodes and %d bonds"
                                              % (type(exc).__name__, str(exc)[:100], len(graph), graph.number_of_edges())})
